@@ -61,7 +61,8 @@ VEC = [(1, 0), (1, 1), (0, 1), (-1, 0), (-1, -1), (0, -1)]  # link 0..5
 def plan(tier):
     n = QUICK_MAX if tier == "quick" else THOROUGH_MAX
     return [("torus", n * n), ("mesh", 4 if tier == "quick" else 16),
-            ("hexagon", 26 if tier == "quick" else 104), ("links", 1),
+            ("hexagon", 26 if tier == "quick" else 104),
+            ("hexagon_big", 6 if tier == "quick" else 12), ("links", 1),
             ("large", 24 if tier == "quick" else 400)]
 
 
@@ -90,6 +91,14 @@ def gen(cls, idx, rng, tier):
                     h=rng.choice([rng.randint(49, 300),
                                   rng.randint(300, 5000), 3, 256, 65535]),
                     seed=rng.randrange(1 << 30))
+    if cls == "hexagon_big":
+        # "all radii": neighbourhoods of millions of chips, read to the end
+        # (as deep as any fixed interpreter limit - recursion depth, small
+        # integer caches - is likely to sit, and beyond)
+        r = [256, 257, 300, 1000, rng.randint(1001, 1200), 999,
+             1024, 1500, 2000, 2500, 3000, rng.randint(3000, 4000)][idx]
+        return dict(kind="hexagon", r=r, abandon=0, big=True, stream=True,
+                    start=(rng.randint(-20, 20), rng.randint(-20, 20)))
     if cls == "hexagon" and idx % 13 == 12:
         # radii beyond every small-number special case of the interpreter
         return dict(kind="hexagon", r=[256, 257, 300, 1000][idx // 13 % 4],
@@ -372,6 +381,34 @@ def check_mesh_pair(ctx, g, ru, Links, a, b, dx, dy, dist, walk=True):
 def run_hexagon(case, ctx, g):
     r = case["r"]
     sx, sy = case["start"]
+    if case.get("stream"):
+        # judged while it is produced: ring d holds 6d distinct chips at
+        # distance d (one chip for d = 0), rings come nearest first, nothing
+        # follows the last ring
+        ring, seen, count = 0, set(), 0
+        ctx.hit("hexagon_large_radius")
+        for x, y in g.concentric_hexagons(r, (sx, sy)):
+            d = hexdist(x - sx, y - sy)
+            if d != ring:
+                check(d == ring + 1 and len(seen) == max(1, 6 * ring),
+                      "hexagon-order", "radius %d: chip at distance %d "
+                      "after %d chips of ring %d" % (r, d, len(seen), ring),
+                      r=r)
+                ring, seen = d, set()
+            check((x, y) not in seen, "hexagon-duplicate",
+                  "radius %d: %r twice" % (r, (x, y)), r=r)
+            seen.add((x, y))
+            count += 1
+            check(d <= r, "hexagon-count", "radius %d: chip at distance %d" %
+                  (r, d), r=r)
+        check(ring == r and len(seen) == max(1, 6 * r) and
+              count == 3 * r * (r + 1) + 1, "hexagon-count",
+              "radius %d: %d chips in all, last ring %d with %d; the hexagon "
+              "has %d" % (r, count, ring, len(seen), 3 * r * (r + 1) + 1),
+              r=r)
+        ctx.hit("hexagon_streamed_chips", count)
+        ctx.mark_nontrivial()
+        return "ok"
     if case.get("big"):
         import itertools
         n = 3 * r * (r + 1) + 1
